@@ -154,6 +154,9 @@ pub struct StoreWorld<'a> {
     pub focus: &'static str,
     /// see `SOp::ViaActor`
     pub via_actor: bool,
+    /// C17 with `via_actor`: one store actor that stays alive across requests (what a node runs), so
+    /// that anything it remembers between requests is part of what is compared
+    pub sticky: Option<iroh_docs::actor::SyncHandle>,
 }
 
 pub fn peer_id(p: u8) -> [u8; 32] {
@@ -181,6 +184,7 @@ impl<'a> StoreWorld<'a> {
             lines: vec![Line::model("tnew 1", "ok")],
             focus,
             via_actor: false,
+            sticky: None,
         })
     }
     /// run `f` with the store inside a store actor; the actor is shut down afterwards and hands the
@@ -335,8 +339,102 @@ impl<'a> StoreWorld<'a> {
         Ok(())
     }
 
+    /// the store is with us again (the long-lived actor, if any, is shut down and hands it back)
+    pub fn ensure_store(&mut self) -> anyhow::Result<()> {
+        if let Some(h) = self.sticky.take() {
+            self.rs.store = self.rt.block_on(h.shutdown())?;
+        }
+        Ok(())
+    }
+    fn sticky_handle(&mut self) -> iroh_docs::actor::SyncHandle {
+        if self.sticky.is_none() {
+            let store = std::mem::replace(&mut self.rs.store, iroh_docs::store::Store::memory());
+            self.sticky = Some(iroh_docs::actor::SyncHandle::spawn(store, None, "sticky".into()));
+        }
+        self.sticky.clone().unwrap()
+    }
+    /// C17 through one long-lived store actor: imports, removal, registrations and reads of the peer
+    /// list. Returns false for requests the actor has no counterpart for.
+    fn apply_sticky(&mut self, op: &SOp) -> anyhow::Result<bool> {
+        match op {
+            SOp::Import { n, write } if *n < RAW_BASE => {
+                let cap = if *write { Capability::Write(self.keys.namespaces[*n].clone()) } else { Capability::Read(self.nsid(*n)) };
+                let (kind, raw) = cap.raw();
+                let h = self.sticky_handle();
+                let imp = match self.rt.block_on(h.import_namespace(cap)) { Ok(_) => "ok".to_string(), Err(e) => format!("err:{e}") };
+                self.lines.push(Line::model(format!("tnsq 1 {} {} {}", self.nshex(*n), kind, hex(&raw)), imp));
+                Ok(true)
+            }
+            SOp::Remove { n } => {
+                let nsid = self.nsid(*n);
+                let h = self.sticky_handle();
+                let imp = match self.rt.block_on(h.drop_replica(nsid)) {
+                    Ok(()) => "ok".to_string(),
+                    Err(e) if e.to_string().contains("not closed") => "err:not-closed".to_string(),
+                    Err(e) => format!("err:{e}"),
+                };
+                self.lines.push(Line::model(format!("tremove 1 {}", self.nshex(*n)), imp));
+                Ok(true)
+            }
+            SOp::Peer { n, t, p } => {
+                let nsid = self.nsid(*n);
+                let pid = peer_id(*p);
+                let h = self.sticky_handle();
+                let imp = self.rt.block_on(async {
+                    if h.open(nsid, Default::default()).await.is_err() {
+                        // the actor serves this request for open documents only; an unknown document
+                        // cannot be opened
+                        return "err:no-document".to_string();
+                    }
+                    let r = h.register_useful_peer(nsid, pid).await;
+                    let _ = h.close(nsid).await;
+                    match r {
+                        Ok(()) => "ok".to_string(),
+                        Err(e) if e.to_string().contains("document not created") => "err:no-document".to_string(),
+                        Err(e) => format!("err:{e}"),
+                    }
+                });
+                std::thread::sleep(std::time::Duration::from_micros(50));
+                self.lines.push(Line::model(format!("tpeer 1 {} {} {}", self.nshex(*n), t * 1000, hex(&pid)), imp));
+                Ok(true)
+            }
+            SOp::Observe { n } => {
+                let nsid = self.nsid(*n);
+                let nsh = self.nshex(*n);
+                let h = self.sticky_handle();
+                let peers = self.rt.block_on(async {
+                    if h.open(nsid, Default::default()).await.is_err() {
+                        return anyhow::Ok("none".to_string());
+                    }
+                    let got = h.get_sync_peers(nsid).await;
+                    let _ = h.close(nsid).await;
+                    Ok(match got? {
+                        None => "none".to_string(),
+                        Some(v) => format!("peers {} {}", v.len(), v.iter().map(|p| hex(p)).collect::<Vec<_>>().join(";")),
+                    })
+                })?;
+                self.lines.push(Line::model(format!("tpeers 1 {nsh}"), peers.clone()));
+                self.lines.push(Line::oracle(format!("speers 1 {nsh}"), peers));
+                Ok(true)
+            }
+            SOp::ObserveAll => {
+                for n in 0..self.keys.namespaces.len() {
+                    self.apply_sticky(&SOp::Observe { n })?;
+                }
+                Ok(true)
+            }
+            _ => Ok(false),
+        }
+    }
+
     pub fn apply(&mut self, op: &SOp) -> anyhow::Result<()> {
         set_clock(NOW);
+        if self.via_actor && self.focus == "C17" {
+            if self.apply_sticky(op)? {
+                return Ok(());
+            }
+            self.ensure_store()?;
+        }
         match op {
             SOp::Open { .. } => {}
             SOp::Import { n, write } => {
